@@ -114,6 +114,9 @@ func (s *Sem) RetCases(fn *ssa.Function) []RetCase {
 	return out
 }
 
+// Nilness is nilness, exported.
+func Nilness(v ssa.Value) int { return nilness(v) }
+
 // nilness of a returned value as far as it can be told syntactically: +1 definitely non-nil, -1 definitely nil, 0 unknown
 func nilness(v ssa.Value) int {
 	switch x := v.(type) {
